@@ -12,15 +12,24 @@
 (* sentences of the statement on it (invariant Statements) and prints it   *)
 (* for the Go harness, which walks the real server through the             *)
 (* configurations in seeded orders (real reconfigurations in between) and  *)
-(* replays every table.                                                    *)
+(* replays every table.  Every configuration of a group is reachable from  *)
+(* every other one by one reconfiguration, and the verdict must not depend *)
+(* on the path: an outcome that is admissible on a fresh server but not on *)
+(* the live one is reported as history-dependent, with the shortest        *)
+(* history the harness could find (known finding                           *)
+(* dns64-prefix-stale-after-disable was found this way).                   *)
 (*                                                                         *)
-(* Two strata of configurations:                                           *)
+(* Three strata of configurations:                                         *)
 (*  D  everything but the encryption settings: aaaa_disabled x refuse_any  *)
 (*     x handle_ddr x DHCP on/off x lease table x local domain x private   *)
 (*     networks x use_private_ptr_resolvers x blocklist, all requests;     *)
 (*  T  the encryption settings (which endpoints, certificate with or       *)
 (*     without an IP address) x handle_ddr x aaaa_disabled x refuse_any x  *)
-(*     blocklist, the requests that concern DDR.                           *)
+(*     blocklist, the requests that concern DDR;                           *)
+(*  N  DNS64: off / Well-Known Prefix / two custom prefixes x              *)
+(*     aaaa_disabled x use_private_ptr_resolvers x blocklist; the requests *)
+(*     are crossed with what the upstream answers (AAAA records inside /   *)
+(*     outside the exclusion prefixes, none, NXDOMAIN; A records or none). *)
 (***************************************************************************)
 EXTENDS Sequences, Naturals, FiniteSets, TLC, Json, DnsFrontCore
 
@@ -44,13 +53,40 @@ R3 == <<"7", "0", "0", "10", "in-addr", "arpa">>
 R4 == <<"4", "4", "8", "8", "in-addr", "arpa">>
 Z1 == <<"168", "192", "in-addr", "arpa">>
 
-RevOf(n, nets) ==
-    CASE n = R1 -> [ok |-> TRUE, priv |-> TRUE, a |-> "a1"]
-      [] n = R2 -> [ok |-> TRUE, priv |-> TRUE, a |-> "a2"]
-      [] n = R3 -> [ok |-> TRUE, priv |-> (nets = "default"), a |-> "a3"]
-      [] n = R4 -> [ok |-> TRUE, priv |-> FALSE, a |-> "a4"]
-      [] n = Z1 -> [ok |-> TRUE, priv |-> TRUE, a |-> "z1"]
-      [] OTHER  -> [ok |-> FALSE, priv |-> FALSE, a |-> ""]
+\* IPv6 reverse names (32 nibbles): w1 = 64:ff9b::102:304 under the Well-Known
+\* Prefix, c1 = 2001:67c:27e4:1064::102:305 under the first custom prefix,
+\* p6 = 2606:4700::1111 under no DNS64 prefix.
+RW == <<"4","0","3","0","2","0","1","0","0","0","0","0","0","0","0","0","0","0","0","0","0","0","0","0","b","9","f","f","4","6","0","0", "ip6", "arpa">>
+RC == <<"5","0","3","0","2","0","1","0","0","0","0","0","0","0","0","0","4","6","0","1","4","e","7","2","c","7","6","0","1","0","0","2", "ip6", "arpa">>
+RP == <<"1","1","1","1","0","0","0","0","0","0","0","0","0","0","0","0","0","0","0","0","0","0","0","0","0","0","7","4","6","0","6","2", "ip6", "arpa">>
+
+\* mode = the DNS64 setting: "off", "wkp" (on, no prefix configured), "custom".
+\* PTR questions under the Well-Known Prefix count whatever is configured.
+RevOf(n, nets, mode) ==
+    CASE n = R1 -> [ok |-> TRUE, priv |-> TRUE, a |-> "a1", n64 |-> FALSE]
+      [] n = R2 -> [ok |-> TRUE, priv |-> TRUE, a |-> "a2", n64 |-> FALSE]
+      [] n = R3 -> [ok |-> TRUE, priv |-> (nets = "default"), a |-> "a3", n64 |-> FALSE]
+      [] n = R4 -> [ok |-> TRUE, priv |-> FALSE, a |-> "a4", n64 |-> FALSE]
+      [] n = Z1 -> [ok |-> TRUE, priv |-> TRUE, a |-> "z1", n64 |-> FALSE]
+      [] n = RW -> [ok |-> TRUE, priv |-> FALSE, a |-> "w1", n64 |-> (mode # "off")]
+      [] n = RC -> [ok |-> TRUE, priv |-> FALSE, a |-> "c1", n64 |-> (mode = "custom")]
+      [] n = RP -> [ok |-> TRUE, priv |-> FALSE, a |-> "p6", n64 |-> FALSE]
+      [] OTHER  -> [ok |-> FALSE, priv |-> FALSE, a |-> "", n64 |-> FALSE]
+
+\* What the upstream answers.  AAAA tokens: o1 outside every prefix, w1 under
+\* the Well-Known Prefix, c1 / c2 under the first / second custom prefix; a
+\* configured prefix set replaces the Well-Known Prefix.
+Excl(tok, mode) == CASE mode = "wkp" -> tok = "w1" [] mode = "custom" -> tok \in {"c1", "c2"} [] OTHER -> FALSE
+A6Variants == << <<"o1">>, <<>>, <<"w1">>, <<"c1">>, <<"c2">>, <<"w1", "o1">>, <<"c1", "o1">>, <<"c1", "c2">> >>
+\* The default script: the sentinel answers (one AAAA outside, one A).
+Up0 == [nx |-> FALSE, a6 |-> <<"o1">>, a4 |-> <<"s4">>]
+UpVariants ==
+    [i \in 1..(2 * Len(A6Variants) + 2) |->
+        IF i <= 2 * Len(A6Variants)
+        THEN [nx |-> FALSE, a6 |-> A6Variants[((i - 1) \div 2) + 1], a4 |-> IF i % 2 = 1 THEN <<"s4">> ELSE <<>>]
+        ELSE [nx |-> TRUE, a6 |-> <<>>, a4 |-> IF i % 2 = 1 THEN <<"s4">> ELSE <<>>]]
+SeqSet(q) == {q[i] : i \in DOMAIN q}
+UpOf(u, mode) == [nx |-> u.nx, a6 |-> {[a |-> t, excl |-> Excl(t, mode)] : t \in SeqSet(u.a6)}, a4 |-> SeqSet(u.a4)]
 
 \* clients: "in" 192.168.10.77, "alt" a loopback address (private by default
 \* only), "pub" a public address
@@ -84,7 +120,19 @@ ReqsOf(names, canon) ==
           [name  |-> names[((i - 1) \div (nq * nc)) + 1],
            qt    |-> QTypes[(((i - 1) \div nc) % nq) + 1],
            cli   |-> Clients[((i - 1) % nc) + 1],
-           canon |-> canon]]
+           canon |-> canon, up |-> Up0]]
+
+\* Stratum N: names x {A, AAAA, PTR} x {in, pub} x upstream scripts.
+Names64(s) == << <<"plain", "example">>, <<"blocked", "example">>, <<"printer">> \o s, <<"ghost">> \o s, RW, RC, RP >>
+QTypes64 == <<"A", "AAAA", "PTR">>
+Clients64 == <<"in", "pub">>
+Reqs64(s) ==
+    LET names == Names64(s)  nq == Len(QTypes64)  nc == Len(Clients64)  nu == Len(UpVariants)
+    IN [i \in 1..(Len(names) * nq * nc * nu) |->
+          [name  |-> names[((i - 1) \div (nq * nc * nu)) + 1],
+           qt    |-> QTypes64[(((i - 1) \div (nc * nu)) % nq) + 1],
+           cli   |-> Clients64[(((i - 1) \div nu) % nc) + 1],
+           canon |-> TRUE, up |-> UpVariants[((i - 1) % nu) + 1]]]
 
 \* Names that are also asked in a spelling with upper-case letters: the special
 \* names (the statement is silent there), a DHCP host name and a reverse name
@@ -95,6 +143,7 @@ CaseNamesFor(s) == << CANARY, HEALTH, DDRNAME, <<"printer">> \o s, <<"ghost">> \
 SetName(str, s) == str \o ":" \o s[1]
 ReqSet(str, s) ==
     IF str = "T" THEN ReqsOf(DDRNames, TRUE) \o ReqsOf(<<DDRNAME, CANARY>>, FALSE)
+    ELSE IF str = "N" THEN Reqs64(s)
     ELSE ReqsOf(NamesFor(s), TRUE) \o ReqsOf(CaseNamesFor(s), FALSE)
 
 \* The blocklist: a leased and an unknown host name of each local domain, the
@@ -110,16 +159,18 @@ TLSVariants ==
                     h \in {"", "443"}, t \in {"", "853"}, q \in {"", "784"}, ip \in BOOLEAN}
 
 NoCfg == [aaaaOff |-> FALSE, refuseAny |-> FALSE, ddr |-> FALSE, tls |-> NoTLS, dhcp |-> FALSE,
-          leases |-> {}, suffix |-> LAN, privPTR |-> FALSE, nets |-> "default", blocked |-> {}]
+          leases |-> {}, suffix |-> LAN, privPTR |-> FALSE, nets |-> "default", blocked |-> {},
+          dns64 |-> "off"]
 
 LeaseIx == IF Full THEN {1, 2, 3} ELSE {1, 3}
 
 \* ------------------------------------------------------------------ verdicts
 Norm(c, r) == [name |-> r.name, canon |-> r.canon, qt |-> r.qt,
-               cpriv |-> CliPriv(r.cli, c.nets), rev |-> RevOf(r.name, c.nets)]
+               cpriv |-> CliPriv(r.cli, c.nets), rev |-> RevOf(r.name, c.nets, c.dns64),
+               up |-> UpOf(r.up, c.dns64)]
 CoreCfg(c) == [aaaaOff |-> c.aaaaOff, refuseAny |-> c.refuseAny, ddr |-> c.ddr, tls |-> c.tls,
                dhcp |-> c.dhcp, leases |-> c.leases, suffix |-> c.suffix, privPTR |-> c.privPTR,
-               blocked |-> c.blocked]
+               blocked |-> c.blocked, dns64 |-> (c.dns64 # "off")]
 Table(c, reqs) == [i \in DOMAIN reqs |-> Verdict(CoreCfg(c), Norm(c, reqs[i]))]
 
 Emit(rec) == PrintT(<<"@@V", ToJson(rec)>>)
@@ -131,8 +182,8 @@ Init == phase = "init" /\ cfg = NoCfg /\ grp = <<"", "">>
 \* (what a server is created with); prints the request list of the group.
 PickGroup ==
     /\ phase = "init"
-    /\ \E str \in {"D", "T"}, s \in Suffixes, n \in {"default", "custom"}, b \in DOMAIN BlockSets :
-         /\ (str = "T" => s = LAN /\ n = "default")
+    /\ \E str \in {"D", "T", "N"}, s \in Suffixes, n \in {"default", "custom"}, b \in DOMAIN BlockSets :
+         /\ (str \in {"T", "N"} => s = LAN /\ n = "default")
          /\ grp' = <<str, SetName(str, s)>>
          /\ cfg' = [NoCfg EXCEPT !.suffix = s, !.nets = n, !.blocked = BlockSets[b]]
          /\ phase' = "group"
@@ -161,7 +212,17 @@ ConfigureT ==
             IN Emit([kind |-> "cfg", set |-> grp[2], cfg |-> cfg',
                      idx |-> [i \in DOMAIN reqs |-> i], tab |-> Table(cfg', reqs)])
 
-Next == PickGroup \/ ConfigureD \/ ConfigureT
+ConfigureN ==
+    /\ phase = "group" /\ grp[1] = "N"
+    /\ \E a, p \in BOOLEAN, m \in {"off", "wkp", "custom"} :
+         /\ cfg' = [cfg EXCEPT !.aaaaOff = a, !.dhcp = TRUE, !.privPTR = p, !.leases = LeaseSets[2], !.dns64 = m]
+         /\ phase' = "done"
+         /\ grp' = grp
+         /\ LET reqs == ReqSet("N", cfg.suffix)
+            IN Emit([kind |-> "cfg", set |-> grp[2], cfg |-> cfg',
+                     idx |-> [i \in DOMAIN reqs |-> i], tab |-> Table(cfg', reqs)])
+
+Next == PickGroup \/ ConfigureD \/ ConfigureT \/ ConfigureN
 Spec == Init /\ [][Next]_vars
 
 \* ---------------------------------------------- the statement, on every table
@@ -172,13 +233,12 @@ Statements ==
              LET rq == Norm(cfg, reqs[i])
              IN StAll(CoreCfg(cfg), rq, Verdict(CoreCfg(cfg), rq))
 
-\* The verdict is a function of the observable part of the configuration: the
-\* names of the private-network sets and of the strata are not inputs.
+\* Sanity of the universe itself.
 TypeOK ==
     /\ phase \in {"init", "group", "done"}
     /\ cfg.suffix \in {LAN, HOME}
     /\ cfg.tls.on \/ cfg.tls = NoTLS
     \* no reverse name is on the blocklist (the statement does not order S8 / S9
     \* against blocking)
-    /\ \A d \in cfg.blocked : ~RevOf(d, "default").ok
+    /\ \A d \in cfg.blocked : ~RevOf(d, "default", "custom").ok
 =============================================================================
